@@ -491,7 +491,7 @@ class EdgeQLSourceGenerator(codegen.SourceGenerator):
         # parenthesized or it would swallow its sibling when re-parsed.
         parent = node._parent  # type: ignore
         parenthesise = isinstance(
-            parent, (qlast.BinOp, qlast.IsOp, qlast.IfElse))
+            parent, (qlast.BinOp, qlast.IsOp, qlast.IfElse, qlast.Shape))
         if parenthesise:
             self.write('(')
         op = str(node.op).upper()
